@@ -204,3 +204,44 @@ class Reporter(object):
     def close(self):
         for name, k in sorted(self.skipped.items()):
             self.ctx.note("%s: %d further failing inputs not written (cap %d per monitor)" % (name, k, self.cap))
+
+
+# ----------------------------------------------------------------------------- wall-clock guards that survive a stalled machine
+# A paused VM / overloaded host makes every armed wall-clock timer fire at once.  So a timeout is
+# only reported when it reproduces: the item is evaluated a second time before "<op>.hangs" is
+# believed.  After three confirmed hangs in one worker process the limit shrinks to 2 s (a build
+# that loops on every input must not cost 40 s per input).
+_CONFIRMED_HANGS = [0]
+
+
+def limit(seconds):
+    from bounded.common import time_limit
+    return time_limit(seconds if _CONFIRMED_HANGS[0] < 3 else min(seconds, 2))
+
+
+def retry_hangs(fn, item):
+    res = fn(item)
+    if ".hangs" in repr(res) and _CONFIRMED_HANGS[0] < 3:
+        res = fn(item)
+        if ".hangs" in repr(res):
+            _CONFIRMED_HANGS[0] += 1
+    return res
+
+
+def random_shape(n, rng, p_poly=0.3, p_unif=0.0):
+    """seeded random ordered shape with n leaves (polytomies with probability p_poly per node,
+    a unifurcation above a node with probability p_unif)"""
+    def rec(k):
+        if k == 1:
+            s = ()
+        else:
+            parts = 2
+            if k >= 3 and rng.random() < p_poly:
+                parts = rng.randint(3, min(k, 5))
+            cuts = sorted(rng.sample(range(1, k), parts - 1))
+            sizes = [b - a for a, b in zip([0] + cuts, cuts + [k])]
+            s = tuple(rec(x) for x in sizes)
+        if p_unif and rng.random() < p_unif:
+            s = (s,)
+        return s
+    return rec(n)
